@@ -398,6 +398,113 @@ fn auc_t<T: RealNumber>(c: &mut Case) {
     both_apis::<T>(c, "auc", &sg, exp, tol, || ClassificationMetrics::roc_auc_score().get_score(&a, &s), || metrics::roc_auc_score(&a, &s));
 }
 
+/// ROC-AUC ranks the scores with the library's own quicksort (median-of-three, explicit 64-slot stack that
+/// panics when it overflows). Random scores never load that stack; this family *searches* for score orders
+/// that do: hill climbing on permutations, guided by the high-water mark of the stack reported by the `verif`
+/// gauge. The verdicts are the property's own: no panic on a valid input, and the value of the definition.
+fn auc_sort_stress(c: &mut Case) {
+    const SITE: &str = "quick_argsort.stack";
+    let n = c.rng.us(64, 200);
+    let start = *c.rng.pick(&["random", "random", "ascending", "descending", "organ-pipe", "sawtooth", "interleaved-halves", "two-runs", "left-chain-killer", "right-chain-killer"]);
+    let mut ys: Vec<f64> = match start {
+        "left-chain-killer" => scverif::gen::sort_killer(n, true),
+        "right-chain-killer" => scverif::gen::sort_killer(n, false),
+        "ascending" => (0..n).map(|i| i as f64).collect(),
+        "descending" => (0..n).map(|i| (n - i) as f64).collect(),
+        "organ-pipe" => (0..n).map(|i| if i < n / 2 { 2 * i } else { 2 * (n - 1 - i) + 1 } as f64).collect(),
+        "sawtooth" => {
+            let m = c.rng.us(2, 9);
+            (0..n).map(|i| ((i % m) * n + i) as f64).collect()
+        }
+        "interleaved-halves" => (0..n).map(|i| if i % 2 == 0 { i / 2 } else { n / 2 + i / 2 + 1 } as f64).collect(),
+        "two-runs" => (0..n).map(|i| if i < n / 2 { 2 * i + 1 } else { 2 * (i - n / 2) } as f64).collect(),
+        _ => {
+            let p = c.rng.perm(n);
+            p.iter().map(|v| *v as f64).collect()
+        }
+    };
+    let npos = c.rng.us(1, n - 1);
+    let mut yt: Vec<f64> = (0..n).map(|i| if i < npos { 1.0 } else { 0.0 }).collect();
+    c.rng.shuffle(&mut yt);
+    c.bucket(&format!("stress-start:{}", start));
+    size_bucket(c, n);
+    let steps = 1500;
+    let mut best: u64 = 0;
+    let mut first = true;
+    let mut evals = 0u64;
+    for step in 0..=steps {
+        // proposal: swap two entries, reverse a stretch or rotate a stretch by one
+        let mut cand = ys.clone();
+        if !first {
+            let (i, j) = (c.rng.below(n), c.rng.below(n));
+            let (lo, hi) = (i.min(j), i.max(j));
+            match c.rng.below(4) {
+                0 | 1 => cand.swap(i, j),
+                2 => cand[lo..=hi].reverse(),
+                _ => cand[lo..=hi].rotate_left(1),
+            }
+        }
+        let _ = smartcore::verif::take_max(SITE);
+        c.count("no-panic:roc_auc_score");
+        let r = guard(|| ClassificationMetrics::roc_auc_score().get_score(&yt, &cand));
+        let depth = smartcore::verif::take_max(SITE);
+        evals += 1;
+        match r {
+            Ok(v) => {
+                if first || step == steps {
+                    let ys = &cand;
+                    // the value of the definition at the start and at the end of the search
+                    let (mut gt, mut ties) = (0u64, 0u64);
+                    for a in 0..n {
+                        for b in 0..n {
+                            if yt[a] == 1.0 && yt[b] == 0.0 {
+                                if ys[a] > ys[b] {
+                                    gt += 1;
+                                } else if ys[a] == ys[b] {
+                                    ties += 1;
+                                }
+                            }
+                        }
+                    }
+                    let exp = (gt as f64 + 0.5 * ties as f64) / (npos * (n - npos)) as f64;
+                    c.describe(json!({"metric": "roc_auc", "search": "hill climbing on the sort's stack high-water mark", "start": start, "step": step, "stack_high_water": depth, "y_true": yt, "y_score": ys}));
+                    c.ratio("auc.value", dev(v, exp), (n as f64 / 4.0 + 8.0) * f64::EPSILON, "auc/stress-search/f64", || format!("roc_auc_score = {:e}, definition {:e}", v, exp));
+                }
+                if first || depth >= best {
+                    best = depth;
+                    ys = cand;
+                }
+                first = false;
+            }
+            Err(p) => {
+                c.describe(json!({"metric": "roc_auc", "search": "hill climbing on the sort's stack high-water mark", "start": start, "step": step, "stack_high_water_before": best, "y_true": yt, "y_score": cand}));
+                if p.in_harness() {
+                    c.inconclusive(&format!("harness panic: {}", p.short()));
+                } else {
+                    c.violate("no-panic:roc_auc_score", &p.loc(), format!("roc_auc_score panicked on a tie-free score vector of length {} found after {} search steps (stack high-water mark before: {}): {}", n, step, best, p.short()));
+                }
+                break;
+            }
+        }
+    }
+    c.count("auc.sort-stress.evaluations");
+    let _ = evals;
+    c.hash_f64s(&ys);
+    c.hash_f64s(&yt);
+    c.nontrivial();
+    c.bucket(&format!(
+        "sort-stack-high-water:{}",
+        match best {
+            0..=8 => "<=8",
+            9..=16 => "9..16",
+            17..=24 => "17..24",
+            25..=32 => "25..32",
+            33..=48 => "33..48",
+            _ => ">48",
+        }
+    ));
+}
+
 // ---------------------------------------------------------------- MSE / MAE / R²
 fn regression_t<T: RealNumber>(c: &mut Case) {
     let n = draw_n(c, 1);
@@ -886,6 +993,7 @@ fn main() {
             Family::new("accuracy", 6000, 120000, accuracy),
             Family::new("binary", 10000, 200000, binary),
             Family::new("auc", 10000, 200000, auc),
+            Family::new("auc_sort_stress", 48, 480, auc_sort_stress),
             Family::new("regression", 8000, 160000, regression),
             Family::new("hcv", 12000, 240000, hcv),
             Family::new("mismatch", 4000, 80000, mismatch),
